@@ -609,7 +609,7 @@ Proof.
   { intros x Hx Hk. apply tops_incl in Hk. cbn [s0' vis] in Hx. destruct Hx as [<-|Hx]; [contradiction|exact (Hfr x Hx Hk)]. }
   rewrite E1, Hbfs.
   set (base := base_depth_of 0 (calc_depth c)).
-  assert (Hbase : base <> 0). { destruct Hc as [_ Hc]. change base with (calc_depth c). lia. }
+  assert (Hbase : base <> 0). { pose proof (calc_depth_pos c) as Hp. change base with (calc_depth c). lia. }
   set (L1 := xkids o p c 1 kk) in *.
   destruct (p_queue _ _ _ _ _ _ _ _ P1) as [q [Qa [Qb [Qc Qd]]]]. cbn [s0' queue app] in Qa.
   destruct F as [|F0]; [lia|].
